@@ -38,7 +38,7 @@ fn meta() -> Meta {
     Meta {
         id: "C04",
         level: "model_checking",
-        rule: "E1: every word w t with w over {W(5), W(cap-1), W(cap+1), W(3cap), F, CloneDrop, the one-character record \"S\"} up to length 3 (quick) / 4 (thorough) and t in {shutdown(), drop of the last handle, drop of the last handle while its thread unwinds from a panic}, for write mode {Direct, SupportCapture, BufferDontFlush(32), BufferAndFlush(32), Async{1,16}} x output {file, file+Numbers, file+TimestampsDirect, custom writer, stdout, stderr}; E2: 2-3 writes then shutdown / drop against the async writer thread, the logger's flusher thread (tick budget 2) and a concurrent second shutdown from a handle clone, all schedules with <= 2 (quick) / 3 (thorough) preemptions; states = distinct (configuration, position, pending-in-buffer bytes) model states, transitions = operations + scheduling decisions; non-trivial = a write larger than the capacity or a clone-drop before later writes; plus a compressing rotation as seventh output kind and an auxiliary free-running two-drop pass (sampling); E2 also: flush() racing with the log calls of another thread, then flush() again and immediate read-back; E2 also: log_to_file_and_writer with an asynchronous second FileLogWriter whose file is read after shutdown / drop; the races are judged for a record whose log call completed before the racing call began; variants with the state mutex un-modelled and with shutdown() as racing call; a rotating, directly used FileLogWriter with its flusher thread leaves no empty file",
+        rule: "E1: every word w t with w over {W(5), W(cap-1), W(cap+1), W(3cap), F, CloneDrop, the one-character record \"S\"} up to length 4 (quick) / 5 (thorough) and t in {shutdown(), drop of the last handle, drop of the last handle while its thread unwinds from a panic}, for write mode {Direct, SupportCapture, BufferDontFlush(32), BufferAndFlush(32), Async{1,16}} x output {file, file+Numbers, file+TimestampsDirect, custom writer, stdout, stderr}; E2: 2-3 writes then shutdown / drop against the async writer thread, the logger's flusher thread (tick budget 2) and a concurrent second shutdown from a handle clone, all schedules with <= 2 (quick) / 3 (thorough) preemptions; states = distinct (configuration, position, pending-in-buffer bytes) model states, transitions = operations + scheduling decisions; non-trivial = a write larger than the capacity or a clone-drop before later writes; plus a compressing rotation as seventh output kind and an auxiliary free-running two-drop pass (sampling); E2 also: flush() racing with the log calls of another thread, then flush() again and immediate read-back; E2 also: log_to_file_and_writer with an asynchronous second FileLogWriter whose file is read after shutdown / drop; the races are judged for a record whose log call completed before the racing call began; variants with the state mutex un-modelled and with shutdown() as racing call; a rotating, directly used FileLogWriter with its flusher thread leaves no empty file; E1 also: words over {W(5), W(cap+1), F, P} of the same length with at least one P (a thread panics inside the file writer while it holds the state mutex, which poisons it) for {Direct, BufferDontFlush, BufferAndFlush} x {file, file+Numbers} x {shutdown, drop}: a record whose log call returns normally after the poisoning is in the output after flush / shutdown / drop",
         assumptions: vec![
             "output is read directly after the call returns (no sleep)".into(),
             "for the custom writer the observable is that flush / shutdown was propagated after the last write".into(),
@@ -87,9 +87,9 @@ fn alphabet() -> Vec<Op> {
 }
 fn depth(tier: &str) -> usize {
     if tier == "quick" {
-        3
-    } else {
         4
+    } else {
+        5
     }
 }
 
@@ -97,10 +97,10 @@ fn e1_units() -> usize {
     MODES.len() * OUTS.len() * 3
 }
 fn units(_tier: &str) -> usize {
-    e1_units() + sched_cases().len() + 1
+    e1_units() + sched_cases().len() + 1 + poison_cases().len()
 }
 fn bounds(tier: &str) -> Value {
-    json!({"e1_configurations": MODES.len() * OUTS.len(), "e1_word_length": depth(tier), "terminal_ops": 3, "e2_harnesses": sched_cases().iter().map(|c| c.name).collect::<Vec<_>>(), "e2_preemption_bound": if tier == "quick" { 2 } else { 3 }, "stress_pass": format!("{} free-running rounds of two threads dropping the last two handle clones at the same time (sampling; auxiliary)", stress_rounds(tier))})
+    json!({"e1_configurations": MODES.len() * OUTS.len(), "e1_word_length": depth(tier), "terminal_ops": 3, "poisoned_mutex_configurations": poison_cases().len(), "e2_harnesses": sched_cases().iter().map(|c| c.name).collect::<Vec<_>>(), "e2_preemption_bound": if tier == "quick" { 2 } else { 3 }, "stress_pass": format!("{} free-running rounds of two threads dropping the last two handle clones at the same time (sampling; auxiliary)", stress_rounds(tier))})
 }
 
 struct World {
@@ -779,7 +779,159 @@ fn run_stress_unit(tier: &str, out: &mut Out) {
     }
 }
 
+
+// ---------------------------------------------------------------- poisoned state mutex
+
+/// Words over {W(5), W(cap+1), F, P} where P makes a thread panic inside the file writer while it
+/// holds the state mutex (the doc-hidden `LoggerHandle::validate_logs` with an expectation that
+/// fails), which poisons the mutex. Judged: a record whose log call *returned normally after* the
+/// poisoning is in the output after a later flush() (synchronous modes) and after the terminal
+/// operation. Records accepted before the poisoning are exempt (a panic inside the logger is not
+/// in the property's quantifier; flush and shutdown skip a poisoned writer by design).
+#[derive(Clone, Copy, Debug, PartialEq, Eq, Hash)]
+enum POp {
+    W(usize),
+    F,
+    P,
+}
+const PALPHA: [POp; 4] = [POp::W(5), POp::W(CAP + 1), POp::F, POp::P];
+
+fn poison_cases() -> Vec<(ModeK, OutK, Term)> {
+    let mut v = Vec::new();
+    for mode in [ModeK::Direct, ModeK::BufDont(CAP), ModeK::BufFlush(CAP, 3_600_000)] {
+        for out in [OutK::File, OutK::FileNum] {
+            for term in [Term::Shutdown, Term::DropLast] {
+                v.push((mode, out, term));
+            }
+        }
+    }
+    v
+}
+
+fn contains_in_order(hay: &[u8], needles: &[Vec<u8>]) -> Option<usize> {
+    let mut from = 0;
+    for (i, n) in needles.iter().enumerate() {
+        match hay[from..].windows(n.len()).position(|w| w == n.as_slice()) {
+            Some(p) => from += p + n.len(),
+            None => return Some(i),
+        }
+    }
+    None
+}
+
+fn run_poison_word(mode: ModeK, out: OutK, word: &[POp], term: Term) -> Result<usize, Fail> {
+    let (w, logger, handle) = build(mode, out, false).map_err(|e| Fail {
+        clause: "build-error",
+        detail: e,
+    })?;
+    let r = (|| {
+        let mut seq = 0usize;
+        let mut poisoned = false;
+        // lines whose log call returned normally after the poisoning
+        let mut after: Vec<Vec<u8>> = Vec::new();
+        let mut refused = 0usize;
+        let check = |after: &[Vec<u8>], clause: &'static str, when: String| -> Result<(), Fail> {
+            let got = w.read().map_err(|e| Fail { clause, detail: e })?;
+            match contains_in_order(&got, after) {
+                None => Ok(()),
+                Some(i) => Err(Fail {
+                    clause,
+                    detail: format!("{when}: the log call for {:?} returned normally (after a panic inside the writer had poisoned its state mutex) but the record is not in the output {:?}", String::from_utf8_lossy(&after[i]), String::from_utf8_lossy(&got)),
+                }),
+            }
+        };
+        for (i, op) in word.iter().enumerate() {
+            match op {
+                POp::W(len) => {
+                    let msg = lg::payload(0, seq, len - 1);
+                    seq += 1;
+                    let l = &*logger;
+                    let ok = std::panic::catch_unwind(std::panic::AssertUnwindSafe(|| lg::log_info(l, &msg))).is_ok();
+                    if ok && poisoned {
+                        let mut line = msg.into_bytes();
+                        line.push(b'\n');
+                        after.push(line);
+                    } else if !ok {
+                        refused += 1;
+                    }
+                }
+                POp::F => {
+                    let h = &handle;
+                    let ok = std::panic::catch_unwind(std::panic::AssertUnwindSafe(|| h.flush())).is_ok();
+                    if ok {
+                        check(&after, "missing-after-flush", format!("after op {i} (flush)"))?;
+                    }
+                }
+                POp::P => {
+                    let h = &handle;
+                    let _ = std::panic::catch_unwind(std::panic::AssertUnwindSafe(|| h.validate_logs(&[("NO-SUCH-LEVEL", "no-such-module", "no-such-message")])));
+                    poisoned = true;
+                }
+            }
+        }
+        let when = match term {
+            Term::Shutdown => {
+                handle.shutdown();
+                "after shutdown()"
+            }
+            _ => {
+                drop(handle);
+                "after the last handle was dropped"
+            }
+        };
+        check(&after, if term == Term::Shutdown { "missing-after-shutdown" } else { "missing-after-drop" }, when.to_string())?;
+        drop(logger);
+        Ok(after.len() * 100 + refused)
+    })();
+    w.close();
+    r
+}
+
+fn run_poison_unit(tier: &str, unit: usize, idx: usize, out: &mut Out) {
+    let (mode, outk, term) = poison_cases()[idx];
+    let d = depth(tier);
+    for_each_word(PALPHA.len(), d, |wi| {
+        let word: Vec<POp> = wi.iter().map(|i| PALPHA[*i]).collect();
+        let Some(pp) = word.iter().position(|o| *o == POp::P) else { return };
+        let case = json!({"kind": "poison", "unit": unit, "idx": idx, "word": wi});
+        let cause = format!("{}/{outk:?}/{term:?}/poisoned-state-mutex", mode_name(mode));
+        let mut vs = Vec::new();
+        let mut obs = None;
+        for _ in 0..2 {
+            let ww = word.clone();
+            match run_isolated(Duration::from_secs(30), move || run_poison_word(mode, outk, &ww, term)) {
+                Ran::Done(Ok(n)) => {
+                    obs = Some(n);
+                    break;
+                }
+                Ran::Done(Err(f)) => vs.push(Violation::new(f.clause, cause.clone(), format!("mode={mode:?} output={outk:?}\n  word={word:?} then {term:?} (P: a thread panics inside the file writer while holding its state mutex)\n  {}", f.detail), case.clone())),
+                Ran::Panicked(m) => vs.push(Violation::new("panic", cause.clone(), format!("mode={mode:?} output={outk:?} word={word:?} {term:?}: {m}"), case.clone())),
+                Ran::Hung => vs.push(Violation::new("deadlock", cause.clone(), format!("mode={mode:?} output={outk:?} word={word:?} {term:?}: did not return within 30 s"), case.clone())),
+            }
+        }
+        out.evaluations += 1;
+        out.traces_validated += 1;
+        out.transitions += word.len() as u64 + 1;
+        if let Some(n) = obs {
+            out.state(&(unit, pp, n));
+            if word[pp..].iter().any(|o| matches!(o, POp::W(_))) {
+                out.nontrivial(&(unit, wi));
+            }
+            out.outcome(format!("poisoned: accepted-after={} refused={}", (n / 100).min(3), (n % 100).min(3)));
+        }
+        if vs.len() == 2 && vs[0].key() == vs[1].key() {
+            out.violation(vs.remove(0));
+        } else if !vs.is_empty() {
+            out.violation(Violation::new("nondeterministic", "replay-diverged", vs[0].detail.clone(), case));
+        }
+    });
+}
+
 fn run_unit(tier: &str, unit: usize, out: &mut Out) {
+    if unit > e1_units() + sched_cases().len() {
+        run_poison_unit(tier, unit, unit - e1_units() - sched_cases().len() - 1, out);
+        return;
+    }
     if unit >= e1_units() + sched_cases().len() {
         run_stress_unit(tier, out);
         return;
@@ -829,6 +981,20 @@ fn replay(case: &Value) -> Vec<Violation> {
         let mut out = Out::default();
         run_stress_unit("thorough", &mut out);
         return out.violations;
+    }
+    if case["kind"].as_str() == Some("poison") {
+        let idx = case["idx"].as_u64().unwrap_or(0) as usize;
+        let Some((mode, outk, term)) = poison_cases().get(idx).copied() else { return vec![] };
+        let word: Vec<POp> = case["word"].as_array().into_iter().flatten().filter_map(|x| x.as_u64().and_then(|n| PALPHA.get(n as usize).copied())).collect();
+        println!("replay C04 (poisoned state mutex): mode={mode:?} output={outk:?} word={word:?} then {term:?}");
+        let cause = format!("{}/{outk:?}/{term:?}/poisoned-state-mutex", mode_name(mode));
+        let ww = word.clone();
+        return match run_isolated(Duration::from_secs(30), move || run_poison_word(mode, outk, &ww, term)) {
+            Ran::Done(Ok(_)) => vec![],
+            Ran::Done(Err(f)) => vec![Violation::new(f.clause, cause, f.detail, case.clone())],
+            Ran::Panicked(m) => vec![Violation::new("panic", cause, m, case.clone())],
+            Ran::Hung => vec![Violation::new("deadlock", cause, "hung".to_string(), case.clone())],
+        };
     }
     if case["kind"].as_str() == Some("sched") {
         let idx = case["idx"].as_u64().unwrap_or(0) as usize;
